@@ -211,7 +211,7 @@ func runC15(r *vhlib.Run) {
 		valid := assemble(chunks, idxOpts{}, "XF\x00", meta.FinalStream)
 		c15Check(r, m, valid, "valid")
 		clone := func() []xchunk { return append([]xchunk{}, chunks...) }
-		for t := 0; t < 24; t++ {
+		for t := 0; t < 26; t++ {
 			cs := clone()
 			io_ := idxOpts{}
 			magic, fmode := "XF\x00", meta.FinalStream
@@ -315,6 +315,14 @@ func runC15(r *vhlib.Run) {
 				zw.Write([]byte("abc"))
 				zw.Close()
 				cs = append(cs, xchunk{Comp: bb.Bytes(), CSize: int64(bb.Len()), RSize: 3})
+			case 24, 25: // (final | non-final) stored block borrowing 1..4 bytes of what follows the chunk
+				kind = "stored-partial-overrun"
+				j := 1 + rng.Intn(4)
+				payload := append(vhlib.RandBytes(rng, rng.Intn(10)), syncM...)
+				c := storedBlock(t == 24, len(payload)+j, payload)
+				lc := xchunk{Comp: c, CSize: int64(len(c)), RSize: int64(len(payload) + j)}
+				at := rng.Intn(len(cs) + 1)
+				cs = append(cs[:at:at], append([]xchunk{lc}, cs[at:]...)...)
 			case 23: // random mutation of the valid stream
 				kind = "mutated"
 				out = gen.Mutate(rng, valid)
@@ -323,6 +331,61 @@ func runC15(r *vhlib.Run) {
 				out = assemble(cs, io_, magic, fmode)
 			}
 			c15Check(r, m, out, kind)
+		}
+		// several index segments; one record claims raw size 0 for a chunk that is
+		// (a) an honest empty chunk, (b) a real chunk with data, (c) garbage,
+		// (d) an empty stored block carrying the final bit -- at every position,
+		// in particular directly after an index block
+		{
+			nseg := 2 + rng.Intn(2)
+			var segs [][]xchunk
+			total := 0
+			for sgi := 0; sgi < nseg; sgi++ {
+				var sg []xchunk
+				for k := 1 + rng.Intn(3); k > 0; k-- {
+					d := vhlib.RandBytes(rng, 1+rng.Intn(30))
+					c := deflateChunk(d, []int{0, 6}[rng.Intn(2)])
+					sg = append(sg, xchunk{Comp: c, CSize: int64(len(c)), RSize: int64(len(d))})
+					total++
+				}
+				segs = append(segs, sg)
+			}
+			target, lie := rng.Intn(total+nseg), rng.Intn(4)
+			kinds := []string{"seg-honest-empty-chunk", "seg-zero-rsize-real-chunk", "seg-zero-rsize-garbage", "seg-zero-rsize-final-bit"}
+			var lc xchunk
+			switch lie {
+			case 0:
+				lc = xchunk{Comp: []byte{0, 0, 0, 0xff, 0xff}}
+			case 1:
+				lc = xchunk{Comp: deflateChunk(vhlib.RandBytes(rng, 1+rng.Intn(20)), 6)}
+			case 2:
+				lc = xchunk{Comp: append([]byte{6 | byte(rng.Intn(32))<<3}, vhlib.RandBytes(rng, 4+rng.Intn(8))...)}
+			case 3:
+				lc = xchunk{Comp: []byte{1, 0, 0, 0xff, 0xff}}
+			}
+			lc.CSize = int64(len(lc.Comp))
+			// insert the lying chunk as the first chunk of a segment (directly after the
+			// preceding index) half of the time, else anywhere
+			sgi := rng.Intn(nseg)
+			posn := 0
+			if target%2 == 1 {
+				posn = rng.Intn(len(segs[sgi]) + 1)
+			}
+			sg := append([]xchunk{}, segs[sgi][:posn]...)
+			sg = append(sg, lc)
+			segs[sgi] = append(sg, segs[sgi][posn:]...)
+			var out []byte
+			var back int64
+			for _, sg := range segs {
+				for _, c := range sg {
+					out = append(out, c.Comp...)
+				}
+				ix := buildIndex(sg, idxOpts{BackSize: back})
+				out = append(out, ix...)
+				back = int64(len(ix))
+			}
+			out = append(out, buildFooter(back, "XF\x00", meta.FinalStream, nil)...)
+			c15Check(r, m, out, kinds[lie])
 		}
 		// two chained indexes with a tampered back size in the second
 		if i%4 == 0 && len(chunks) >= 2 {
